@@ -54,9 +54,11 @@ def active():
 
 
 class _Entry:
-    __slots__ = ('expr', 'taken', 'alt_model', 'aux', 'forced', 'pushed')
+    __slots__ = ('expr', 'taken', 'alt_model', 'aux', 'forced', 'pushed', 'dom_t', 'dom_f')
 
     def __init__(self, expr, taken, alt_model, aux=None, forced=False, pushed=True):
+        self.dom_t = None           # {var id: (var, Mask)} implied by the True side
+        self.dom_f = None
         self.expr = expr
         self.taken = taken
         self.alt_model = alt_model  # model for the other side if feasible & unexplored
@@ -83,6 +85,7 @@ class Engine:
         self.pos = 0
         self.model = None
         self.nfresh = 0
+        self.dom = {}               # per-path: var id -> Mask (sound over-approximation)
         self.base_assumptions = []
         # statistics
         self.paths = 0
@@ -165,11 +168,15 @@ class Engine:
             if not (e.forced and e.expr.eq(expr)):
                 raise HarnessError('nondeterministic replay (assume): %s vs %s' % (e.expr, expr))
             self.pos += 1
+            self._narrow(e.dom_t)
             return
         self.solver.push()
         self.solver.add(expr)
-        self.trail.append(_Entry(expr, True, None, forced=True))
+        ent = _Entry(expr, True, None, forced=True)
+        ent.dom_t, _ = _auto_dom(expr)
+        self.trail.append(ent)
         self.pos += 1
+        self._narrow(ent.dom_t)
         if self._eval_bool(expr) is not True:
             self.model = None
             r = self._check()
@@ -179,8 +186,25 @@ class Engine:
                 raise Inconclusive('solver unknown (assume)')
             self.model = self.solver.model()
 
-    def branch(self, expr):
-        """Decide a symbolic condition; returns a Python bool."""
+    def _narrow(self, d):
+        if d:
+            dom = self.dom
+            for vid, (v, m) in d.items():
+                cur = dom.get(vid)
+                dom[vid] = (v, m if cur is None else cur[1].inter(m))
+
+    def domain(self, v):
+        """known over-approximation of the values of variable v on this path (Mask or None)"""
+        hit = self.dom.get(v.get_id())
+        return hit[1] if hit is not None else None
+
+    def _done(self, ent, val):
+        self._narrow(ent.dom_t if val else ent.dom_f)
+        return val
+
+    def branch(self, expr, dom_true=None):
+        """Decide a symbolic condition; returns a Python bool.  dom_true optionally gives
+        per-variable supersets implied by the True side ({var id: (var, Mask)})."""
         if isinstance(expr, bool):
             return expr
         expr = z3.simplify(expr)
@@ -193,7 +217,11 @@ class Engine:
             if e.forced or not e.expr.eq(expr):
                 raise HarnessError('nondeterministic replay (branch): %s vs %s' % (e.expr, expr))
             self.pos += 1
-            return e.taken
+            return self._done(e, e.taken)
+        if dom_true is None:
+            dom_true, dom_false = _auto_dom(expr)
+        else:
+            dom_false = None
         # new decision
         val = self._eval_bool(expr)
         if val is None:
@@ -205,9 +233,11 @@ class Engine:
             elif r == z3.unsat:
                 # positive side infeasible: negative must hold (path condition is sat)
                 self.model = None
-                self.trail.append(_Entry(expr, False, None, pushed=False))
+                ent = _Entry(expr, False, None, pushed=False)
+                ent.dom_t, ent.dom_f = dom_true, dom_false
+                self.trail.append(ent)
                 self.pos += 1
-                return False
+                return self._done(ent, False)
             else:
                 raise Inconclusive('solver unknown (branch)')
         other = z3.Not(expr) if val else expr
@@ -216,17 +246,21 @@ class Engine:
             alt = self.solver.model()
         elif r == z3.unsat:
             # implied by the path condition: recorded (for replay) without a solver frame
-            self.trail.append(_Entry(expr, val, None, pushed=False))
+            ent = _Entry(expr, val, None, pushed=False)
+            ent.dom_t, ent.dom_f = dom_true, dom_false
+            self.trail.append(ent)
             self.pos += 1
-            return val
+            return self._done(ent, val)
         else:
             raise Inconclusive('solver unknown (branch alt)')
         self.solver.push()
         self.solver.add(expr if val else z3.Not(expr))
-        self.trail.append(_Entry(expr, val, alt))
+        ent = _Entry(expr, val, alt)
+        ent.dom_t, ent.dom_f = dom_true, dom_false
+        self.trail.append(ent)
         self.pos += 1
         self.decisions += 1
-        return val
+        return self._done(ent, val)
 
     def realise_int(self, expr):
         """Concretise an integer term by forking over its feasible values (capped)."""
@@ -296,6 +330,7 @@ class Engine:
             while True:
                 self.pos = 0
                 self.nfresh = 0
+                self.dom = {}
                 self.paths += 1
                 kind, payload = self._run_one(fn)
                 if on_path is not None:
@@ -384,6 +419,98 @@ class Engine:
             'inconclusive_paths': [list(x) for x in self.inconclusive],
             'realisations': self.realisations, 'budget_exhausted': self.budget_exhausted,
         }
+
+
+# ---------------------------------------------------------------------- domain extraction
+
+def _mask_of(expr, depth=0):
+    """interpret a z3 Bool over ONE integer variable as (var, Mask) or None"""
+    from .mask import Mask, MAXCP
+    if depth > 6:
+        return None
+    k = expr.decl().kind()
+    ch = expr.children()
+    if k in (z3.Z3_OP_EQ, z3.Z3_OP_LE, z3.Z3_OP_GE, z3.Z3_OP_LT, z3.Z3_OP_GT) and len(ch) == 2:
+        a, b = ch
+        if z3.is_int_value(a) and not z3.is_int_value(b):
+            a, b = b, a
+            k = {z3.Z3_OP_LE: z3.Z3_OP_GE, z3.Z3_OP_GE: z3.Z3_OP_LE, z3.Z3_OP_LT: z3.Z3_OP_GT,
+                 z3.Z3_OP_GT: z3.Z3_OP_LT}.get(k, k)
+        if not (z3.is_int_value(b) and z3.is_const(a) and a.decl().kind() == z3.Z3_OP_UNINTERPRETED
+                and z3.is_int(a)):
+            return None
+        n = b.as_long()
+        if k == z3.Z3_OP_EQ:
+            m = Mask.rng(n, n)
+        elif k == z3.Z3_OP_LE:
+            m = Mask.rng(0, n)
+        elif k == z3.Z3_OP_GE:
+            m = Mask.rng(max(n, 0), MAXCP)
+        elif k == z3.Z3_OP_LT:
+            m = Mask.rng(0, n - 1)
+        else:
+            m = Mask.rng(max(n + 1, 0), MAXCP)
+        return a, m
+    if k == z3.Z3_OP_NOT:
+        r = _mask_of(ch[0], depth + 1)
+        if r is None:
+            return None
+        return r[0], r[1].neg()
+    if k in (z3.Z3_OP_AND, z3.Z3_OP_OR) and len(ch) <= 64:
+        var = None
+        acc = None
+        for c in ch:
+            r = _mask_of(c, depth + 1)
+            if r is None:
+                return None
+            if var is None:
+                var, acc = r
+            elif not var.eq(r[0]):
+                return None
+            else:
+                acc = acc.inter(r[1]) if k == z3.Z3_OP_AND else acc.union(r[1])
+        return var, acc
+    return None
+
+
+_AUTODOM = {}
+
+
+def _auto_dom(expr):
+    eid = expr.get_id()
+    hit = _AUTODOM.get(eid)
+    if hit is not None:
+        return hit[1]
+    r = _auto_dom0(expr)
+    if len(_AUTODOM) > 200000:
+        _AUTODOM.clear()
+    _AUTODOM[eid] = (expr, r)
+    return r
+
+
+def _auto_dom0(expr):
+    """(dom_true, dom_false) for single-variable range conditions (variables that are code
+    points / bytes: domain 0..MAXCP is implied by their declaration)"""
+    try:
+        r = _mask_of(expr)
+    except Exception:
+        r = None
+    if r is None:
+        if expr.decl().kind() == z3.Z3_OP_AND:
+            # conjunction over several variables: narrow each conjunct that is single-variable
+            d = {}
+            for c in expr.children():
+                rr = _mask_of(c)
+                if rr is not None:
+                    vid = rr[0].get_id()
+                    if vid in d:
+                        d[vid] = (rr[0], d[vid][1].inter(rr[1]))
+                    else:
+                        d[vid] = rr
+            return (d or None), None
+        return None, None
+    v, m = r
+    return {v.get_id(): (v, m)}, {v.get_id(): (v, m.neg())}
 
 
 # ---------------------------------------------------------------------- symbolic scalars
